@@ -370,7 +370,7 @@ def run_group(g, tier, seed, use_cache=True):
 LEVEL = 'model_checking'
 PROPS = {
     'C01': dict(groups=['tree', 'alt', 'ovl']),
-    'C02': dict(groups=['tree']),
+    'C02': dict(groups=['tree', 'handles']),
     'C03': dict(groups=['tree', 'alt', 'ovl', 'handles', 'xfer']),
     'C05': dict(groups=['tree', 'alt', 'ovl']),
     'C12': dict(groups=['tree', 'alt', 'ovl', 'join', 'faults']),
@@ -504,7 +504,7 @@ MANIFEST_TEXT = {
                 technique='TLA+ exhaustive enumeration of join arguments (MC_Join) + TLC trace validation (Trace_Join)', ref='DESIGN.md 6 C06'),
     'C01': dict(level=_LVL + 'Conjuncts class/value/effect: outcome class in the allowed set and the full observation equals the tree Level A prescribes, after every call.',
                 note=_NOTE, technique='TLA+ Level-A model checking + LTS replay + TLC trace validation', ref='DESIGN.md 6 C01'),
-    'C02': dict(level=_LVL + 'MemoryFS and PhysicalFS are both judged by the same deterministic Level A on the same LTS edges, so agreement follows on the specified regime.',
+    'C02': dict(level=_LVL + 'MemoryFS and PhysicalFS are both judged by the same deterministic Level A on the same LTS edges (and by the same cursor machines on the handle LTS), so agreement follows on the specified regime.',
                 note=_NOTE, technique='TLA+ Level-A model checking + LTS replay on mem and phys + TLC trace validation', ref='DESIGN.md 6 C02'),
     'C03': dict(level=_LVL + 'Conjunct wellformed is evaluated by TLC on the observed record of every event over the unrestricted operation domain.',
                 note=_NOTE, technique='TLA+ invariant WellFormed (model) + WellFormedObs on every trace event', ref='DESIGN.md 6 C03'),
